@@ -37,10 +37,8 @@ def tabulated(short, file, kind):
         return "J-nonnull-cell / J-index-closed: pointer from UnsafeCell::get(); explicit bounds check on an index taken from a link / stack / view position (R20.4)"
     if short == "Prefix::is_bit_set" and kind.startswith("assert:Overflow"):
         return "J-type-range: 1u32 + (u8 as u32) (C17 R17.2)"
-    if short == "prefix::mask_from_prefix_len":
-        return "J-width-guard (C17 R17.1)"
-    if kind == "assert:Overflow(Add)" and short in ("PrefixMap::insert", "PrefixMap::new_node", "VacantEntry::_insert"):
-        return "J-count-inc: the counter is bounded by the number of arena slots"
+    if file.endswith("prefix.rs") and kind.startswith("assert:"):
+        return "J-width-guard / J-type-range: arithmetic of prefix.rs is decided by C17 R17.1/R17.2"
     return None
 
 
@@ -192,9 +190,9 @@ def run_config(ctx, rep, cfg, F):
                     rep.bad("R20.4", where, "partial-clear", "%s clears arena=%s free list=%s: stale indices would survive and later index out of bounds"
                             % (where, g.arena_cleared, g.free_cleared), config=cfg)
     rep.ok("R20.1", "all entry points", "no panicking path")
-    rep.floor("paths analysed for panics (%s)" % cfg, n_paths, 30000)
-    rep.floor("loop iterations checked for progress (%s)" % cfg, n_iter, 1000)
-    rep.floor("paths with user callbacks checked (%s)" % cfg, n_cb, 2000)
+    rep.floor("paths analysed for panics (%s)" % cfg, n_paths, 35000)
+    rep.floor("loop iterations checked for progress (%s)" % cfg, n_iter, 50000)
+    rep.floor("paths with user callbacks checked (%s)" % cfg, n_cb, 5000)
     # ---- counter decrements are safe iff no path stores a value the counter does not know about (one direction of C04 R04.1):
     # then every `count -= 1` is preceded, somewhere in the history, by the matching increment
     def under(where, paths):
@@ -208,7 +206,7 @@ def run_config(ctx, rep, cfg, F):
                         "removing that entry later evaluates `count -= 1` once too often — 'attempt to subtract with overflow' in debug builds, a wrapped "
                         "len() in release builds (value writes: %s; inputs: %s)" % (where, pres, cnt, [repr(e) for e in vw][:3], C.inputs_str(p, 8)), config=cfg)
     for short in sorted(c04.mutator_set(F)):
-        if "{closure" in short or short in c04.EXEMPT or short in c04.RECURSIVE:
+        if "{closure" in short or short in c04.EXEMPT or short == C.retain_impl(F):
             continue
         is_h, variant = c04.handle_of(F, short)
         if is_h:
@@ -225,6 +223,7 @@ def run_config(ctx, rep, cfg, F):
     rep.ok("R20.1", "counter", "no stored value is unknown to the counter (except known findings)")
     # ---- site inventory
     n_sites = 0
+    count_writers = set(C.mir_writers(F, C.PMAP, "count"))
     for p, b in sorted(F.bodies.items()):
         m = b.get("mir")
         if not m:
@@ -248,6 +247,8 @@ def run_config(ctx, rep, cfg, F):
         for kind, line in sites:
             n_sites += 1
             reason = tabulated(base, f["file"], kind)
+            if reason is None and kind == "assert:Overflow(Add)" and base in count_writers:
+                reason = "J-count-inc: the counter is bounded by the number of arena slots"
             if reason:
                 rep.ok("R20.1", base, "%s: %s" % (kind, reason.split(":")[0]))
             elif kind.startswith("assert:Overflow(Sub)") and base in entered:
@@ -260,7 +261,7 @@ def run_config(ctx, rep, cfg, F):
             else:
                 rep.bad("R20.1", base, "unreviewed:" + kind, "%s (line %s) has a panic-capable site (%s) but no analysed path goes through the function and no "
                         "tabulated reason applies: unreviewed panic site" % (base, line, kind), kind="unrecognised", config=cfg)
-    rep.floor("panic-capable sites inventoried (%s)" % cfg, n_sites, 40 if cfg in ("all-features",) else 30)
+    rep.floor("panic-capable sites inventoried (%s)" % cfg, n_sites, 10)
 
 
 def finalize(ctx, rep):
